@@ -23,8 +23,77 @@ Theorem C14_mux_unique : forall topic regs h1 h2,
   select_rel topic regs h1 -> select_rel topic regs h2 -> h1 = h2.
 Proof. exact select_rel_functional. Qed.
 
+(* --- "ServeMux invokes exactly the registered handlers ..." over arbitrary histories ---
+   Any number of ServeMux values, any interleaving of Handle(filter, handler) and Serve(topic) on
+   them (in particular Handle after Serve, repeated topics, rejected filters in between): the k-th
+   operation yields exactly the event [op_spec] prescribes. *)
+
+(* every Serve invokes exactly the handlers registered BEFORE it on the same ServeMux whose
+   filter is valid and matches the topic, in registration order *)
+Theorem C14_mux_ops_serve : forall ops k i t, nth_error ops k = Some (OpServe i t) ->
+  exists hs, nth_error (muxes_run muxes_empty ops) k = Some (EvServe hs) /\
+             select_rel t (regs_on i (firstn k ops)) hs.
+Proof. exact muxes_serve_spec. Qed.
+
+(* every Handle, wherever it occurs in a history, is accepted exactly when the filter is valid *)
+Theorem C14_mux_ops_handle : forall ops k i f h, nth_error ops k = Some (OpHandle i f h) ->
+  exists b, nth_error (muxes_run muxes_empty ops) k = Some (EvHandle b) /\ (b = true <-> valid_filter f).
+Proof. exact muxes_handle_spec. Qed.
+
+(* both clauses at once, one event per operation, and the prescription determines the event *)
+Theorem C14_mux_ops : forall ops k, (k < length ops)%nat ->
+  exists e, nth_error (muxes_run muxes_empty ops) k = Some e /\ op_spec ops k e.
+Proof. exact muxes_run_spec. Qed.
+
+Theorem C14_mux_ops_unique : forall ops k e1 e2, op_spec ops k e1 -> op_spec ops k e2 -> e1 = e2.
+Proof. exact op_spec_functional. Qed.
+
+(* the predicate evaluated on observed histories (CheckC14.ops_prop_ok) decides [op_spec] *)
+Theorem C14_mux_ops_decided : forall ops k e, op_expected ops k = Some e <-> op_spec ops k e.
+Proof. exact op_expected_spec. Qed.
+
+(* --- '$' ---
+   The property ranges over topic names that do not start with '$'.  [valid_filter], [matches] and
+   the model have no case for '$' at all: exchanging '$' and 'a' everywhere in filter and topic
+   changes neither acceptance nor the match result.  Hence a level beginning with '$' at any
+   position is matched by '+', by a trailing '#', and by the same literal level, exactly like a
+   level beginning with 'a'.  The theorems above are stated for ALL topic strings; on topics that
+   do start with '$' (outside the property) they describe what filter.go does: it applies no 4.7.2
+   exclusion, so e.g. "#" matches "$SYS/x" (C14_dollar_first_is_not_special). *)
+Theorem C14_dollar_ordinary : forall s topic,
+  match new_topic_filter s, new_topic_filter (map dollar_a s) with
+  | Some tf, Some tf' => filter_match tf' (map dollar_a topic) = filter_match tf topic
+  | None, None => True
+  | _, _ => False
+  end.
+Proof. exact dollar_ordinary. Qed.
+
+(* the same for the declarative relation, for every renaming of characters fixing '/', '+', '#' *)
+Theorem C14_matches_rename : forall rho, renaming rho -> forall f ts,
+  matches (rename_levels rho f) (rename_levels rho ts) <-> matches f ts.
+Proof. exact matches_rename. Qed.
+
+(* the level standing under a '+' has no influence on the result, at whatever depth the '+' occurs:
+   in particular it may start with '$' (no condition on x, y) *)
+Theorem C14_plus_level_irrelevant : forall pre post tpre x y tpost, length pre = length tpre ->
+  tf_match (pre ++ [PLUS] :: post) (tpre ++ x :: tpost) = tf_match (pre ++ [PLUS] :: post) (tpre ++ y :: tpost).
+Proof. exact plus_level_irrelevant. Qed.
+
+(* outside the property: a topic starting with '$' is still matched by a leading wildcard *)
+Theorem C14_dollar_first_is_not_special : forall t, filter_match [[HASH]] (DOLLAR :: t) = true.
+Proof. exact dollar_first_hash. Qed.
+
 Print Assumptions C14_levels.
 Print Assumptions C14_accept_iff_valid.
 Print Assumptions C14_match_iff_spec.
 Print Assumptions C14_mux.
 Print Assumptions C14_mux_unique.
+Print Assumptions C14_mux_ops_serve.
+Print Assumptions C14_mux_ops_handle.
+Print Assumptions C14_mux_ops.
+Print Assumptions C14_mux_ops_unique.
+Print Assumptions C14_mux_ops_decided.
+Print Assumptions C14_dollar_ordinary.
+Print Assumptions C14_matches_rename.
+Print Assumptions C14_plus_level_irrelevant.
+Print Assumptions C14_dollar_first_is_not_special.
